@@ -40,11 +40,19 @@ type c05Case struct {
 	Masks   []string    // container: paths (relative to a mount) to mask
 	DevNull bool        // container: bind /dev/null into the container (masks need it, see DESIGN.md finding 11)
 	InitCmd bool        // container: an InitCommand (the probe, bound read-only) runs before the first program
+	// container: the table is handed to the Builder as written (entries whose source is missing included) instead of
+	// being filtered by the caller first; namespace runner: no effect (its callers always filter)
+	Unfiltered bool `json:",omitempty"`
 }
 
 func c05GenCase(rt *rapid.T) c05Case {
 	c := c05Case{Impl: rapid.SampledFrom([]string{"unshare", "container"}).Draw(rt, "impl"), DevNull: rapid.IntRange(0, 7).Draw(rt, "devnull") != 0}
-	n := rapid.IntRange(1, 7).Draw(rt, "n")
+	n := rapid.IntRange(0, 7).Draw(rt, "n")
+	// one case in six: a table that is empty once the entries with a missing source are dropped
+	nothingLeft := rapid.IntRange(0, 5).Draw(rt, "nothingleft") == 0
+	if nothingLeft {
+		n = rapid.IntRange(0, 3).Draw(rt, "nmissing")
+	}
 	type placed struct {
 		target string
 		kind   string
@@ -53,6 +61,9 @@ func c05GenCase(rt *rapid.T) c05Case {
 	proc := false
 	for i := 0; i < n; i++ {
 		kind := rapid.SampledFrom([]string{"bind-ro-dir", "bind-ro-dir", "bind-rw-dir", "bind-ro-file", "bind-rw-file", "tmpfs", "tmpfs-size", "proc-ro", "proc-rw", "bind-missing"}).Draw(rt, "kind")
+		if nothingLeft {
+			kind = "bind-missing"
+		}
 		if strings.HasPrefix(kind, "proc") {
 			if proc {
 				kind = "tmpfs"
@@ -113,6 +124,10 @@ func c05GenCase(rt *rapid.T) c05Case {
 		c.InitCmd = rapid.IntRange(0, 3).Draw(rt, "initcmd") == 0
 		if c.InitCmd {
 			c.DevNull = true // os/exec needs it for the command's stdio
+		}
+		c.Unfiltered = rapid.IntRange(0, 3).Draw(rt, "unfiltered") == 0
+		if nothingLeft {
+			c.Unfiltered, c.DevNull, c.InitCmd = n > 0, false, false
 		}
 	}
 	return c
@@ -224,9 +239,13 @@ func c05Run(c c05Case, dir string, rec *vh.Recorder) error {
 			real++
 		}
 	}
-	if real == 0 {
+	if c.Impl != "container" {
+		c.Unfiltered = false
+	}
+	if real == 0 && c.Impl == "container" && !(c.Unfiltered && len(c.Mounts) > 0 && !c.DevNull && !c.InitCmd) {
 		// an empty table means "default mounts" to container.Builder; keep the table explicit
 		c.Mounts = append(c.Mounts, c05Mount{Kind: "tmpfs", Target: "tz", Src: len(c.Mounts)})
+		real++
 	}
 	// host sources
 	os.RemoveAll(filepath.Join(dir, "src"))
@@ -296,7 +315,15 @@ func c05Run(c c05Case, dir string, rec *vh.Recorder) error {
 	if c.Impl == "container" && c.InitCmd {
 		mb.WithBind(probe.Path(), "vinit", true)
 	}
-	mb.FilterNotExist()
+	if !c.Unfiltered {
+		mb.FilterNotExist()
+	}
+	// whatever happens, the probe's modification battery must not leave anything on the host's own root
+	defer func() {
+		for _, n := range []string{"newdir", "newfile", "newlink", "newnod"} {
+			os.Remove("/" + n)
+		}
+	}()
 
 	// probe script
 	var s probe.Script
@@ -421,6 +448,9 @@ func c05Run(c c05Case, dir string, rec *vh.Recorder) error {
 			rp.finish()
 			// a table the implementation refuses is not this property's subject
 			rec.Class("container-build-refused", 1)
+			if real == 0 {
+				rec.Class("container-build-refused:every-source-missing", 1)
+			}
 			rec.Case(c, false, "refused")
 			return nil
 		}
@@ -665,6 +695,12 @@ func c05Run(c c05Case, dir string, rec *vh.Recorder) error {
 	nt := nro >= 1 && nrw >= 1 && nested
 	var classes []string
 	classes = append(classes, "impl="+c.Impl)
+	if real == 0 {
+		classes = append(classes, "nothing-left-after-filtering:"+c.Impl)
+	}
+	if c.Unfiltered {
+		classes = append(classes, "table-handed-over-unfiltered")
+	}
 	for _, e := range exps {
 		classes = append(classes, "kind="+e.m.Kind)
 	}
@@ -697,7 +733,7 @@ func keys(m map[string]bool) []string {
 	return out
 }
 
-const c05Rule = "case = mount table of 1..7 entries (read-only / writable binds of directories and of single files, tmpfs with and without size, proc ro/rw, nested targets inside tmpfs and inside binds, a bind whose source does not exist and must be filtered) over generated host source trees plus a host secret outside every source; for the container additionally symlinks, mask paths (file, directory, missing), with/without /dev/null, with/without an InitCommand; binds through Builder.WithBind or as hand-written mount.Mount records with other valid flag words; run through unshare.Runner (raw in-child mount sequence) or container.Builder; " +
+const c05Rule = "case = mount table of 0..7 entries (one in six: nothing left once entries with a missing source are dropped; container: one in four handed over unfiltered) (read-only / writable binds of directories and of single files, tmpfs with and without size, proc ro/rw, nested targets inside tmpfs and inside binds, a bind whose source does not exist and must be filtered) over generated host source trees plus a host secret outside every source; for the container additionally symlinks, mask paths (file, directory, missing), with/without /dev/null, with/without an InitCommand; binds through Builder.WithBind or as hand-written mount.Mount records with other valid flag words; run through unshare.Runner (raw in-child mount sequence) or container.Builder; " +
 	"oracle = the probe's results of mkdir/create/symlink/mknod/open-for-write/truncate/chmod/unlink on the root and on every mount (EROFS unless declared writable), effects in the bind sources on the host, a recursive listing of / and /../.. (only configured top-level names, the secret nowhere), /old_root gone, and /proc/<pid>/mountinfo read from the host (root ro tmpfs + exactly the configured entries, ro/rw as declared); non-trivial = >=1 read-only bind, >=1 writable entry and a nested or file target"
 
 func TestC05Unshare(t *testing.T) { c05Test(t, "unshare") }
